@@ -6,19 +6,29 @@ open Bbm_util
 (* "block:3+back:1" = backsymbol(1) over block(3) over the base program.
    Every layer receives the SAME (S,C) params given in the command.
    "backfix:k" (model only) = backsymbol logic with split_at(self.cells).
+   Params field "S,C,chain": the innermost layer receives (S,C), every
+   further layer receives params() of the layer below it.
    Result: logics OUTERMOST first. *)
-let logics_of_spec (spec : string) (params : n * n) : logic list =
-  let one e =
+let logics_of_spec (spec : string) ((params, chain) : (n * n) * bool) : logic list =
+  let one params e =
     match split ':' e with
     | ["block"; k] -> unwrap (logic_new LkBlock false (n_of_string k) params)
     | ["back"; k] -> unwrap (logic_new LkBacksymbol false (n_of_string k) params)
     | ["backfix"; k] -> unwrap (logic_new LkBacksymbol true (n_of_string k) params)
     | _ -> failwith "bad macro spec" in
   (* construction order = base outward; a panic in a constructor is a PANIC of the case *)
-  List.rev (List.map one (split '+' spec))
+  let els = split '+' spec in
+  let n = List.length els in
+  let (_, _, acc) = List.fold_left (fun (i, params, acc) e ->
+      let lg = one params e in
+      (* MacroProg::params() of this layer is evaluated only when a further layer is built *)
+      let next = if chain && i + 1 < n then unwrap (macro_params lg) else params in
+      (i + 1, next, lg :: acc)) (0, params, []) els in
+  acc
 
 let params_of s = match split ',' s with
-  | [a; b] -> (n_of_string a, n_of_string b)
+  | [a; b] -> ((n_of_string a, n_of_string b), false)
+  | [a; b; "chain"] -> ((n_of_string a, n_of_string b), true)
   | _ -> failwith "bad params"
 
 let slots_of_field (s : string) : slot list =
@@ -126,9 +136,9 @@ let cmd_macrolog prog params spec n =
    colour 0; prints the queries in the order made (at most maxq). *)
 let cmd_macroclosure prog params spec maxq =
   let comp = comp_of_text prog in
-  let (bs, bc) = params_of params in
-  let lgs = logics_of_spec spec (bs, bc) in
+  let lgs = logics_of_spec spec (params_of params) in
   let outer = List.hd lgs in
+  let (bs, bc) = (outer.lg_base_states, outer.lg_base_colors) in
   let maxq = int_of_string maxq in
   let seen = Hashtbl.create 64 in
   let queue = Queue.create () in
